@@ -47,6 +47,8 @@ type unit struct {
 	structLits map[string]bool
 	// pointer-receiver methods that UPDATE the local value they are called on (x.Merge(y) as a statement => x := x.m_Merge y)
 	mutating map[string]bool
+	// methods of the receiver translated in ANOTHER unit: as a value `r.m` is `recvMethod_m`, as a call `recv_m args`
+	methods map[string]bool
 }
 
 var units = map[string]*unit{
@@ -130,6 +132,22 @@ func init() {
 	units["GoDurationsBucket"] = &unit{
 		name: "GoDurationsBucket", file: "faststats/rolling_percentile.go", recv: "durationsBucket", funcs: []string{"Durations", "clear", "addDuration"},
 		imports: []string{"CircuitModel.GoRollingPercentilePrims"}, open: []string{"CM", "CM.Go", "CM.GoRP", "CM.GoRP.D"}, vars: "", monad: "SLM", types: rpTypes,
+	}
+	// K6 (interference tie, C14): the same two files once more, over primitives in which every atomic operation is
+	// preceded by an arbitrary move of the other goroutines (CircuitModel/GoRCConcPrims*.lean)
+	rciTypes := map[string]string{"time.Time": "Int", "time.Duration": "Int", "int": "Int", "int64": "Int", "func(int)": "ClearFn", "[]int64": "List Int"}
+	units["GoRCIClear"] = &unit{
+		name: "GoRCIClear", file: "faststats/rolling_counter.go", recv: "RollingCounter", funcs: []string{"clearBucket"},
+		imports: []string{"CircuitModel.GoRCConcPrims"}, open: []string{"CM", "CM.Go", "CM.GoRCI", "CM.GoRCI.K"}, vars: "", monad: "IM", types: rciTypes,
+	}
+	units["GoRCIAdv"] = &unit{
+		name: "GoRCIAdv", file: "faststats/rolling_bucket.go", recv: "RollingBuckets", funcs: []string{"Advance"},
+		imports: []string{"CircuitModel.GoRCConcPrimsB"}, open: []string{"CM", "CM.Go", "CM.GoRCI", "CM.GoRCI.B"}, vars: "", monad: "IM", types: rciTypes,
+	}
+	units["GoRCIOps"] = &unit{
+		name: "GoRCIOps", file: "faststats/rolling_counter.go", recv: "RollingCounter", funcs: []string{"Inc", "RollingSumAt", "TotalSum", "GetBuckets", "Reset"},
+		methods: map[string]bool{"clearBucket": true},
+		imports: []string{"CircuitModel.GoRCConcPrimsC"}, open: []string{"CM", "CM.Go", "CM.GoRCI", "CM.GoRCI.C"}, vars: "", monad: "IM", types: rciTypes,
 	}
 	never := []string{"Success", "ErrFailure", "ErrTimeout", "ErrBadRequest", "ErrInterrupt", "ErrConcurrencyLimitReject", "ErrShortCircuit", "Opened", "Closed"}
 	units["GoNeverOpens"] = &unit{name: "GoNeverOpens", file: "closers.go", recv: "neverOpens", funcs: append([]string{"Prevent", "ShouldOpen"}, never...),
@@ -401,7 +419,7 @@ func (t *tr) expr(e ast.Expr) string {
 			return paren(t.expr(x.X)) + ".f_" + x.Sel.Name // a field of a computed value
 		}
 		switch {
-		case root.Name == t.recvVar && t.recvVar != "" && len(path) == 1 && t.funcs[path[0]]:
+		case root.Name == t.recvVar && t.recvVar != "" && len(path) == 1 && (t.funcs[path[0]] || t.u.methods[path[0]]):
 			return "recvMethod_" + path[0] // a method value (bound to the receiver)
 		case root.Name == t.recvVar && t.recvVar != "":
 			return "(← recv_" + strings.Join(path, "_") + ")" // a field read: may be a word shared with other goroutines
